@@ -11,7 +11,7 @@ META = {
                  "generic-record -> item mapping of add_* and the item -> generic-record mapping of read_generic_* are inverse "
                  "(same item field and same block table for every generic field); R01.4 the time reference handed to "
                  "get_time_offset and add_time_offset has the same provenance; R01.5 address-event aggregation increments on "
-                 "hit and inserts 1 on miss; R01.6 no member is written/read under the key named after another member. R01.10: a record stored for every loop element is declared or wholly re-assigned inside the loop, or every member the loop sets is set unconditionally. R01.11: every CdnsBlock member that a method called from CdnsExporter::buffer_* can change is re-initialised by CdnsBlock::clear(). The R01.9 import of the array/map start table tolerates a flag that is only ever set when every library caller passes a flag that is false at the call. R01.12 (R12.4 imported): write_block() serialises, clears and re-arms the buffered block unconditionally, so records are written under the parameter set the application selected. R01.14 = R03.11: a pointer / iterator member that refers into a container of the same object is re-seated by every member function that can reallocate that container. R01.15: a data member that is always assigned the same function of other members (cdnsverif/derived.py) is recomputed by every member function that changes those members; the lazy form under a validity flag / stored key is refreshed before every read and invalidated after every change. R01.16 = R06.2: every flush threshold in front of a write_int call - a constant or a head-size function of the value, tabulated over the value's range - is at least the head write_int needs, so no integer is refused and silently dropped. R01.11 accepts a member that is read only while a validity flag is set which clear() lowers, and a member read only in conditions that also test a companion which changes only together with it and which clear() re-initialises. R01.17: 'filled' flags of the generic adders - every conditional statement list that stores a member of a local record also raises the flag that record is attached under (pairing read off the lists that do both), no such flag is lowered again, every tested flag is raised somewhere. R01.18 = R03.12 (optionals are dereferenced where they hold a value; a dereference under the negated presence test is a violation). R01.3 also: a generic field the reader restores but the adder never stores is a violation.",
+                 "hit and inserts 1 on miss; R01.6 no member is written/read under the key named after another member. R01.10: a record stored for every loop element is declared or wholly re-assigned inside the loop, or every member the loop sets is set unconditionally. R01.11: every CdnsBlock member that a method called from CdnsExporter::buffer_* can change is re-initialised by CdnsBlock::clear(). The R01.9 import of the array/map start table tolerates a flag that is only ever set when every library caller passes a flag that is false at the call. R01.12 (R12.4 imported): write_block() serialises, clears and re-arms the buffered block unconditionally, so records are written under the parameter set the application selected. R01.14 = R03.11: a pointer / iterator member that refers into a container of the same object is re-seated by every member function that can reallocate that container. R01.15: a data member that is always assigned the same function of other members (cdnsverif/derived.py) is recomputed by every member function that changes those members; the lazy form under a validity flag / stored key is refreshed before every read and invalidated after every change. R01.16 = R06.2: every flush threshold in front of a write_int call - a constant or a head-size function of the value, tabulated over the value's range - is at least the head write_int needs, so no integer is refused and silently dropped. R01.11 accepts a member that is read only while a validity flag is set which clear() lowers, and a member read only in conditions that also test a companion which changes only together with it and which clear() re-initialises. R01.17: 'filled' flags of the generic adders - every conditional statement list that stores a member of a local record also raises the flag that record is attached under (pairing read off the lists that do both), no such flag is lowered again, every tested flag is raised somewhere. R01.18 = R03.12 (optionals are dereferenced where they hold a value; a dereference under the negated presence test is a violation). R01.3 also: a generic field the reader restores but the adder never stores is a violation. R01.19: read cursors of CdnsBlockRead (members used as subscript of a member container and incremented): every constant the class gives them - initialisers, assignments - is 0.",
     "explanation": "Static cross-check of sibling implementations (write/read, add/read_generic) and of the wire tables "
                    "against RFC 8618. Decides the structural part of C01 for all records and parameter sets; value equality "
                    "(tick arithmetic, integers over their range, byte strings) and record order are not decided.",
@@ -808,6 +808,63 @@ def check_filled_flags(run, rule):
     run.info["filled_flag_pairs"] = n_pairs
 
 
+def check_read_cursors(run, rule):
+    """R01.19: read cursors of CdnsBlockRead.  A member that a method uses as subscript of a member container and increments
+    (`m_x[m_c] .. m_c++`) is a cursor over the records of the block; read_generic_*() hands out the records from the cursor
+    on.  Wherever the class gives such a cursor a *constant* (constructor initialisers, in-class initialisers, assignments),
+    the constant is 0: any other start skips records of every block.  (Values copied from another block are R19.2's.)"""
+    facts = run.facts
+    cls = "CDNS::CdnsBlockRead"
+    rec = facts.record(cls, rule=rule)
+    methods = [f for f in facts.functions.values() if f.get("cls") == cls and f.get("body") is not None]
+    cursors = {}
+    for f in methods:
+        subs = set()
+        incs = set()
+        for x in ir.walk(f["body"]):
+            if x.get("k") == "OpCall" and x.get("op") == "[]" and len(x.get("args", [])) == 2:
+                ip = path(x["args"][1])
+                cp = path(x["args"][0])
+                if ip and cp and ip[0] == "this" and cp[0] == "this" and len(ip) == 2:
+                    subs.add(ip[1])
+            if x.get("k") == "Un" and x.get("op") in ("post++", "pre++") and path(x.get("e")) and path(x["e"])[0] == "this" and len(path(x["e"])) == 2:
+                incs.add(path(x["e"])[1])
+        for m in subs & incs:
+            cursors.setdefault(m, f)
+    n = 0
+    for m, user in sorted(cursors.items()):
+        sites = []
+        for fld in rec.get("fields", []):
+            if fld["n"] == m and fld.get("init") is not None:
+                sites.append((rec, fld.get("l", rec.get("line", 0)), const_value(fld["init"]), "in-class initialiser"))
+        for f in sorted(methods, key=lambda f_: f_.get("line", 0)):
+            # (an initialiser is dead when the constructor's body runs a method of the class that assigns the cursor at its top level)
+            overwritten = False
+            for c_ in ir.calls_in(f["body"]):
+                if (c_.get("callee") or {}).get("cls") == cls:
+                    for g_ in facts.fns((c_.get("callee") or {}).get("qn")):
+                        if g_.get("body") is not None and any(
+                                isinstance(unwrap(t_), dict) and unwrap(t_).get("k") == "Bin" and unwrap(t_).get("op") == "=" and path(unwrap(t_).get("lhs")) == ("this", m)
+                                for t_ in ir.stmts(g_["body"])):
+                            overwritten = True
+            for i_ in f.get("inits", []) or []:
+                if i_.get("member") == m and i_.get("init") is not None and i_.get("written", True) and not overwritten:
+                    sites.append((f, i_.get("l", f["line"]), const_value(i_["init"]), "constructor initialiser"))
+            for x in ir.walk(f["body"]):
+                if x.get("k") == "Bin" and x.get("op") == "=" and path(x.get("lhs")) == ("this", m):
+                    sites.append((f, x.get("l", 0), const_value(x.get("rhs")), "assignment in %s" % short(f["qn"])))
+        for f, line, cv, what in sites:
+            if cv is None:
+                continue
+            n += 1
+            run.ob(rule, "%s:%s@%s" % (m, what.split(" in ")[0].replace(" ", "-"), line), cv == 0, f if isinstance(f, dict) and f.get("qn") else rec.get("file"), line,
+                   "%s starts at the first record (%s)" % (m, what) if cv == 0 else
+                   "%s is set to %s (%s): %s hands out the records from the cursor on, so the first %s record(s) of every block are never returned" % (
+                       m, cv, what, short(user["qn"]), cv))
+    run.floor(rule, 2, "constant stores into read cursors")
+    run.info["read_cursors"] = sorted(cursors)
+
+
 def check(run):
     from . import C08 as _C08
     _C08.check_tables_append(run, "R01.13")      # an independent writer may repeat a table value; indices must keep resolving
@@ -824,6 +881,7 @@ def check(run):
     _C06.check_public_writes(run, rename={"R06.2": "R01.16", "R06.3": None})
     check_fresh_records(run, "R01.10")
     check_filled_flags(run, "R01.17")
+    check_read_cursors(run, "R01.19")
     _C03.check_optional_derefs(run, "R01.18")   # a flipped presence test loses the field for every record that has it
     check_block_state_cleared(run, "R01.11")
     # records are written under the parameter set the application selected: write_block() re-arms the (possibly empty) block
